@@ -3,7 +3,7 @@
 cd "$(dirname "$0")/.." || exit 2
 TIER=${1:-quick}
 rc=0
-for p in $(python3 -c "import json; print(' '.join(c["property_id"] for c in json.load(open('MANIFEST.json'))['checks']))"); do
+for p in $(python3 -c "import json; print(' '.join(c['property_id'] for c in json.load(open('MANIFEST.json'))['checks']))"); do
   out=$(./check $p $TIER 2>&1); r=$?
   echo "$out" | grep -E "^\[$p|^VIOLATION" | cut -c1-220
   [ $r -ne 0 ] && rc=1
